@@ -18,9 +18,12 @@ EXPLANATION = (
     "(b) Point lookup: findPointIn with the R-tree answers as symbolic candidate sets: exact matches have "
     "priority over tolerant ones, among candidates the order of the element list decides, reject behaves as "
     "documented.  (c) The options digest pre-hash encoding distinguishes option mappings that differ in a "
-    "value or a key.  Consistency of the networks built from the shipped maps (reciprocity of links, "
-    "containment, coverage, tangency, cached == parsed) is a statement about parsed data produced by "
-    "numpy/shapely code and is NOT claimed."
+    "value or a key, and a cache written under one option set (8 sets, including falsy values such as "
+    "fill_intersections=False and tolerance=0) is used for a load under another only if they are equal; the "
+    "lookup region of the tolerant pass lies within the tolerance of the point.  Consistency of the networks "
+    "built from the shipped maps (containment, coverage, tangency, cached == parsed) is a statement about "
+    "parsed data produced by numpy/shapely code and is NOT claimed; link reciprocity / ownership is checked "
+    "concretely on three small maps as an auxiliary (non-solver) check."
 )
 MANIFEST_ENTRY = {
     "category": "other",
@@ -30,7 +33,7 @@ MANIFEST_ENTRY = {
 ASSUMPTIONS = ["pickle.load either returns the stored object or raises (UnpicklingError or any other exception)"]
 
 
-def h_cache(ctx):
+def h_cache(ctx, mode="header"):
     import pickle as real_pickle
 
     import scenic.domains.driving.roads as R
@@ -43,22 +46,34 @@ def h_cache(ctx):
     from scenic.core.serialization import deterministicHash
 
     true_digest = hashlib.blake2b(map_bytes).digest()
-    kwargs = {"tolerance": 0.05}
+    # the cache was written under options A; the map is now loaded with options B (both chosen symbolically)
+    OPTION_SETS = [{}, {"tolerance": 0.05}, {"tolerance": 0}, {"fill_intersections": False}, {"fill_intersections": True},
+                   {"tolerance": 0.05, "fill_gaps": False}, {"tolerance": 0.05, "fill_gaps": True}, {"elide_short_roads": False}]
+    if mode == "options":
+        cached_under = ctx.choice("options_when_cached", OPTION_SETS)
+        kwargs = dict(ctx.choice("options_now", OPTION_SETS))
+    else:
+        kwargs = {"tolerance": 0.05}
+        cached_under = kwargs if ctx.flag("header.options_digest_matches") else {"tolerance": 0.05, "fill_gaps": False}
     true_opts = deterministicHash(kwargs, digest_size=8)
+    cached_opts = deterministicHash(cached_under, digest_size=8)
     # ---- symbolic cache file
     exists = ctx.flag("cache_file_exists")
     use_cache = ctx.flag("useCache")
     write_cache = ctx.flag("writeCache")
-    version = ctx.int("header.version", 0, 2**32 - 1)
-    vlen = ctx.choice("header.version_bytes", [4, 3, 0])
-    digest_ok = ctx.flag("header.map_digest_matches")
-    dlen = ctx.choice("header.digest_bytes", [64, 63, 10])
-    opts_ok = ctx.flag("header.options_digest_matches")
-    olen = ctx.choice("header.options_bytes", [8, 7, 0])
-    unpickle = ctx.choice("unpickling", ["ok", "UnpicklingError", "EOFError", "AttributeError"])
+    if mode == "options":
+        version, vlen, digest_ok, dlen = current, 4, True, 64
+    else:
+        version = ctx.int("header.version", 0, 2**32 - 1)
+        vlen = ctx.choice("header.version_bytes", [4, 3, 0])
+        digest_ok = ctx.flag("header.map_digest_matches")
+        dlen = ctx.choice("header.digest_bytes", [64, 63, 10])
+    opts_ok = cached_under == kwargs
+    olen = 8 if mode == "options" else ctx.choice("header.options_bytes", [8, 7, 0])
+    unpickle = "ok" if mode == "options" else ctx.choice("unpickling", ["ok", "UnpicklingError", "EOFError", "AttributeError"])
     vbytes = [(version >> (8 * i)) & 0xFF for i in range(4)][:vlen]
     dg = list(true_digest if digest_ok else bytes(64 - 1) + b"\x01")[:dlen]
-    og = list(true_opts if opts_ok else b"\x00" * 7 + b"\x01")[:olen]
+    og = list(cached_opts)[:olen]
     content = vbytes + dg + og + [0x1F, 0x8B]
     opened, parsed, dumped = [], [], []
     cached_net = object()
@@ -184,8 +199,11 @@ def h_lookup(ctx):
     tol = ctx.choice("tolerance", [0.0, 0.5])
     reject = ctx.choice("reject", [False, True, "custom message"])
 
+    targets = []
+
     class Tree:
         def query(self, target, predicate=None):
+            targets.append(target)
             is_point = getattr(target, "geom_type", "") == "Point"
             flags = exact if is_point else [a or b for a, b in zip(exact, near)]
             return [i for i in range(n) if flags[i]]
@@ -199,6 +217,13 @@ def h_lookup(ctx):
         out = got
     except RejectionException as e:
         out = ("rejected", str(e))
+    import shapely.geometry as sg
+
+    pt = sg.Point(1.0, 2.0)
+    for t in targets:
+        far = t.hausdorff_distance(pt)
+        ctx.check("lookup-region-lies-within-the-tolerance-of-the-point", far <= tol * (1 + 1e-9), farthest=far, tolerance=tol,
+                  kind=getattr(t, "geom_type", "?"))
     want = None
     for e in lst:
         if exact[int(e.uid[1:])]:
@@ -251,6 +276,53 @@ def h_options_digest(ctx):
     ctx.check("key-order-does-not-matter", a == d)
 
 
+def g_network_links():
+    """Concrete auxiliary check (NOT the deciding technique, see EXPLANATION): reciprocity of links in the networks
+    parsed from three small shipped maps."""
+    from scenic.domains.driving.roads import Network
+
+    bad, cases = [], 0
+    for m in ("opendrive.org/CulDeSac.xodr", "LGSVL/cubetown.xodr", "LGSVL/borregasave_old.xodr"):
+        n = Network.fromFile("/repo/assets/maps/" + m, useCache=False, writeCache=False)
+
+        def chk(cond, msg):
+            nonlocal cases
+            cases += 1
+            if not cond and len(bad) < 6:
+                bad.append(f"{m}: {msg}")
+
+        for r in n.allRoads or n.roads:
+            for g in r.laneGroups:
+                chk(g.road is r, f"lane group {g.uid} of road {r.uid} names road {g.road.uid}")
+                if g._opposite is not None:
+                    chk(g._opposite._opposite is g, f"opposite of opposite of {g.uid}")
+            for l in r.lanes:
+                chk(l.road is r and l.group in r.laneGroups and l in l.group.lanes, f"lane {l.uid} ownership")
+                for sec in l.sections:
+                    chk(sec.lane is l and sec.group is l.group and sec.road is r, f"lane section {sec.uid} ownership")
+                for a in l.adjacentLanes:
+                    chk(l in a.adjacentLanes, f"adjacent lanes {l.uid} / {a.uid} not reciprocal")
+                for mv in l.maneuvers:
+                    chk(mv.startLane is l, f"maneuver of lane {l.uid} starts at {mv.startLane.uid}")
+            for sec in r.sections:
+                chk(sec.road is r, f"road section {sec.uid} ownership")
+        for i in n.intersections:
+            roads = set(i.roads)
+            for l in i.incomingLanes:
+                chk(l.road in roads, f"incoming lane {l.uid} of {i.uid}: its road {l.road.uid} not among the intersection's roads")
+                chk(l._successor is i or l.road._successor is i or l.road._predecessor is i, f"incoming lane {l.uid} not linked to {i.uid}")
+            for l in i.outgoingLanes:
+                chk(l.road in roads, f"outgoing lane {l.uid} of {i.uid}: its road {l.road.uid} not among the intersection's roads")
+            for mv in i.maneuvers:
+                chk(mv.intersection is i, f"maneuver {mv.startLane.uid}->{mv.endLane.uid} names another intersection")
+                chk(mv.startLane in i.incomingLanes and mv.endLane in i.outgoingLanes, "maneuver start/end lanes not incoming/outgoing lanes")
+                chk(mv.startLane.road in roads and mv.endLane.road in roads, f"roads of maneuver {mv.startLane.uid}->{mv.endLane.uid} not among the intersection's roads")
+                chk(mv in mv.startLane.maneuvers, "maneuver not listed by its start lane")
+            for r in i.roads:
+                chk(r._successor is i or r._predecessor is i, f"road {r.uid} listed by {i.uid} is not linked to it")
+    return (not bad, "; ".join(bad), cases)
+
+
 def obligations(tier, seed):
     import scenic.core.serialization as S
     import scenic.domains.driving.roads as R
@@ -261,9 +333,14 @@ def obligations(tier, seed):
                     "unpickling": ["ok", "UnpicklingError", "EOFError", "AttributeError"]},
                    [R.Network.fromFile.__func__, R.Network.fromPickle.__func__],
                    ["open / gzip.open / pickle.load / pathlib.Path / struct.unpack replaced by models"], opts=dict(total_timeout=900.0)),
+        Obligation("cache-options", (lambda ctx: h_cache(ctx, "options")), "a cache written under options A is used for a load with options B only if A == B (8 x 8 option sets incl. falsy values)",
+                   {"option sets": 8, "flags": "useCache/writeCache/exists symbolic"}, [R.Network.fromFile.__func__, R.Network.fromPickle.__func__, S.deterministicHash],
+                   ["open / gzip.open / pickle.load / pathlib.Path / struct.unpack replaced by models"], opts=dict(total_timeout=600.0)),
         Obligation("point-lookup", h_lookup, "findPointIn priority: exact before tolerant, list order, reject",
                    {"elements": 3, "orders": "all (symbolic)", "candidate sets": "symbolic"}, [R.Network.findPointIn],
                    ["STRtree.query: arbitrary candidate sets (exact subset of tolerant)"], opts=dict(total_timeout=600.0)),
         Obligation("options-digest-encoding", h_options_digest, "deterministicHash pre-hash encoding distinguishes differing options",
                    {"values": "symbolic ints in [-50,50]"}, [S.deterministicHash], ["blake2b replaced by a concatenating hasher (collision resistance trusted)"]),
+        Obligation("network-links[ground]", None, "auxiliary concrete check: link reciprocity / ownership in three small parsed maps (CulDeSac, cubetown, borregasave_old)",
+                   {"maps": 3}, [], ["not solver-decided: data-driven check of parsed networks"], ground=g_network_links),
     ]
